@@ -6,6 +6,8 @@ call / hold a reference / slow call / graceful close / abrupt reset, and the ser
 seed-chosen point (also twice, also while clients are mid-request).  The simulated kernel owns the
 descriptor table, so what the server process still holds is counted, not guessed.
 """
+import struct
+
 from sim import core, net, pair
 from harness import run as H
 from . import srv as SV
@@ -23,7 +25,7 @@ STUB = ["kernel: listeners, accept, connect, poll, descriptors (sim/net.py)", "t
         "the forking server (modelled: the child is the same _accept_method call re-entered on a copy of the server with dup-ed descriptors)"]
 ASSUMPTIONS = ["kernel fidelity for accept/shutdown/close/poll masks", "the fork model is faithful only because os.fork() is the first statement of "
                "ForkingServer._accept_method"]
-PROBES = ["c17:knock", "c17:closed-with-clients", "c17:abrupt-reset", "c17:slow-call-in-flight", "c17:second-close", "c17:oneshot", "c17:unix-socket", "c17:children-reaped", "fork:sigchld-coalesced"]
+PROBES = ["c17:knock", "c17:closed-with-clients", "c17:abrupt-reset", "c17:slow-call-in-flight", "c17:second-close", "c17:close-with-partial-frame", "c17:oneshot", "c17:unix-socket", "c17:children-reaped", "fork:sigchld-coalesced"]
 CHUNK = 16
 
 
@@ -106,8 +108,22 @@ def run_one(choices, params):
             info["closed_with"] = nconn
             if nconn:
                 sim.count("c17:closed-with-clients")
+            if not server_closed[0] and w.draw(3) == 0:
+                # one client is in the middle of sending a request when the server is closed: whoever serves it is blocked reading
+                # the rest of the frame (placed right before the close, so that nobody else depends on that worker)
+                cand = sorted(i for i, cl in clients.items() if cl["state"] == "connected")
+                if cand:
+                    i = cand[w.draw(len(cand))]
+                    so = clients[i]["conn"]._channel.stream.sock
+                    so.sendall((struct.pack("!LB", 64, 0) + b"x" * 30)[:w.pick((3, 5, 6, 35))])
+                    clients[i]["state"] = "stalled"
+                    steps.append("partial-frame%d" % i)
+                    sim.count("c17:close-with-partial-frame")
+                    settle(0.5)
             try:
                 server.close()
+            except core.Deadlock as e:
+                raise core.Violation("close-hangs", "%s: server.close() never returns: %s (history %s)" % (label, e, steps[-8:]))
             except Exception as e:
                 raise core.Violation("second-close" if server_closed[0] else "close-raised", "%s: server.close() raised %s: %s" % (
                     label, type(e).__name__, e))
@@ -266,6 +282,32 @@ def run_one(choices, params):
                         cl["conn"].close()
                     except Exception:
                         pass
+                cl["state"] = "eof"
+            if cl["state"] == "stalled":
+                so = cl["conn"]._channel.stream.sock
+                so.settimeout(5)
+                t0 = sim.now
+                try:
+                    while so.recv(4096) != b"":       # (the server's own close request and replies may precede the end of the stream)
+                        pass
+                    outcome = "EOF"
+                except (ConnectionError, EOFError):
+                    outcome = "EOF"
+                except OSError as e:
+                    outcome = type(e).__name__
+                dt = sim.now - t0
+                if outcome != "EOF" or dt > 1.0:
+                    sig = {"pool": "ThreadPoolServer", "forking": "ForkingServer", "threaded": "ThreadedServer", "oneshot": "OneShotServer"}[kind]
+                    v = core.Violation("client-not-terminated/" + sig, "client %d had sent part of a frame when the %s was closed; afterwards its "
+                                       "socket shows %s after %.3f virtual s instead of end-of-stream (history %s)" % (i, sig, outcome, dt, steps[-12:]), sig=sig)
+                    if kind != "forking":
+                        raise v
+                    deferred.append(v)
+                try:
+                    so.close()
+                except Exception:
+                    pass
+                cl["conn"]._closed = True
                 cl["state"] = "eof"
             if cl.get("slow") == "TimeoutError":
                 raise core.Violation("client-not-terminated/slow", "client %d's in-flight call ran into its timeout" % i, sig="slow")
